@@ -31,6 +31,7 @@ type skEntry struct {
 	storeKind string
 	n         int
 	poisoned  bool
+	dirty     bool // poisoned by a refused decode only: Clear() restores it
 	inputs    []wv // accepted (value, weight) pairs, when known
 	known     bool // inputs are the complete history of this sketch
 
@@ -654,12 +655,38 @@ func (r *Runner) execSketch(cmd string, a []string) string {
 			c.plain = e.plain.Copy()
 		}
 		r.sks[id] = c
+		// C14: a copy answers every query like its original at the time of copying — also the sums, bit
+		// for bit (NaN = NaN), and its encoding (sparse stores iterate in map order: not compared)
+		if !r.quiet {
+			okp, _ := guard(func() {
+				if e.exact != nil {
+					s1, s2 := e.exact.GetSum(), c.exact.GetSum()
+					if math.Float64bits(s1) != math.Float64bits(s2) && !(math.IsNaN(s1) && math.IsNaN(s2)) {
+						r.oracleFail("copy-differs", fmt.Sprintf("exact sum of the copy is %v, of the original %v", s2, s1))
+					}
+				}
+				if e.storeKind != "sparse" {
+					b1, b2 := encodeBytes(e, false), encodeBytes(c, false)
+					if string(b1) != string(b2) {
+						r.oracleFail("copy-differs", fmt.Sprintf("the copy encodes to %x, the original to %x", b2, b1))
+					}
+				}
+			})
+			_ = okp
+		}
 		return "ok"
 	case "clear":
 		if len(a) != 1 {
 			return "bad-op"
 		}
 		e, bad := r.getSk(a[0])
+		if e == nil && bad == "poisoned" {
+			// a sketch left in an unspecified state by a refused decode: Clear() must bring it back
+			if id, err := strconv.Atoi(a[0]); err == nil && r.sks[id].dirty {
+				e = r.sks[id]
+				e.poisoned, e.dirty = false, false
+			}
+		}
 		if e == nil {
 			return bad
 		}
@@ -939,7 +966,7 @@ func (r *Runner) execSketch(cmd string, a []string) string {
 			r.decodeOracle(bs, e.sk().IndexMapping, e.exact != nil, e.storeKind, e.n, before, got, derr)
 		}
 		if derr != nil {
-			e.poisoned = true
+			e.poisoned, e.dirty = true, true
 			return "err:" + skErrName(derr)
 		}
 		return "ok"
